@@ -42,6 +42,7 @@ from ds_shm import ShmHang
 SNDMORE = 2   # zmq.SNDMORE
 PULL = 7      # zmq.PULL
 HANG_S = 20.0
+BLOCKED_S = 3.0   # a job under way that does not come back for this long (real time) is taken to wait for a lock another paused job holds
 
 
 class Clock:
@@ -313,7 +314,7 @@ class ManualExecutor:
         co = self.jobs[i][5]
         # a job that does not come back soon is taken to be blocked by another job that is under way; with no other job under
         # way there is nothing it could be blocked by (only a slow machine): wait for it
-        ok = co.advance(stepping, timeout=0.2 if any(k != i for k in self.under_way()) else HANG_S)
+        ok = co.advance(stepping, timeout=BLOCKED_S if any(k != i for k in self.under_way()) else HANG_S)
 
         def others_finish():
             for k in self.under_way():
